@@ -343,6 +343,14 @@ func runRange(c *hx.Ctx, or *hx.Oracle, rc rangeCase, verbose bool) {
 		fmt.Printf("replay: range first=%s keys=%v (%s %s): trie2.VerifyRangeProof %s, trie.VerifyRangeProof %s\n", rc.First, rc.Keys, rc.Shape, rc.Tamper, g2, g1)
 	}
 	honest := rc.Tamper == "" && len(rc.Muts) == 0
+	// identical sub-nodes under different parents on the two boundary paths: the hash-keyed proof set holds ONE object
+	// for them, and trie2's range verifier links and cuts proof nodes in place (the registered root cause of
+	// trie2:honest-range-proof-panics); the classes of trie2 carry the suffix so that this family stays apart
+	shared := ""
+	if !(len(pk) == 1 && pk[0] == "nil") && sharedSubnodes(b, pk) {
+		shared = ":identical-sub-nodes"
+		c.Hist["range:boundary-paths-share-identical-sub-nodes"]++
+	}
 	for _, ig := range [][3]string{{"trie2", g2, "2"}, {"legacy", g1, "1"}} {
 		impl, g := ig[0], ig[1]
 		c.Evaluations++
@@ -355,6 +363,12 @@ func runRange(c *hx.Ctx, or *hx.Oracle, rc rangeCase, verbose bool) {
 			}
 			if m == "fuel" && (g == "hang" || g == "crash") {
 				m = g // the model runs out of fuel exactly on cyclic sets: the code loops / overflows its stack
+			}
+			if m == "fuel" {
+				// an altered, cyclic proof set on which the model's fuel runs out while the code happens to give up
+				// earlier: outside every theorem (their statements exclude fuel exhaustion); counted, not compared
+				c.Hist["range:model-out-of-fuel:"+impl+":"+strings.Fields(g)[0]]++
+				m = g
 			}
 			if m != g {
 				c.Violation("model-vs-"+impl+":range", fmt.Sprintf("%s %s: impl %s model %v", rc.Shape, rc.Tamper, g, rep), rc, true)
@@ -388,7 +402,11 @@ func runRange(c *hx.Ctx, or *hx.Oracle, rc rangeCase, verbose bool) {
 				c.Violation(impl+":honest-range-proof-wrong-more-flag",
 					fmt.Sprintf("root %s range first=%s [%s..] (%s): %s but the opposite holds", fhex(&b.root), rc.First, rc.Shape, rc.Tamper, g), rc, false)
 			} else {
-				c.Violation(impl+":range-forged:"+rc.Tamper, "altered range accepted: "+g, rc, false)
+				cl := impl + ":range-forged:" + rc.Tamper
+				if impl == "trie2" {
+					cl += shared
+				}
+				c.Violation(cl, "altered range accepted: "+g, rc, false)
 			}
 			continue
 		}
@@ -402,6 +420,8 @@ func runRange(c *hx.Ctx, or *hx.Oracle, rc rangeCase, verbose bool) {
 			cl := impl + ":honest-range-proof-not-verified"
 			if g == "panic" {
 				cl = impl + ":honest-range-proof-panics"
+			} else if impl == "trie2" {
+				cl += shared
 			}
 			c.Violation(cl, fmt.Sprintf("root %s first=%s %d claimed entries (%s): %s", fhex(&b.root), rc.First, len(rc.Keys), rc.Shape, g), rc, false)
 		}
@@ -412,6 +432,45 @@ func runRange(c *hx.Ctx, or *hx.Oracle, rc rangeCase, verbose bool) {
 			c.Hist["range:"+impl+":panic-on-altered-input:"+rc.Tamper]++
 		}
 	}
+}
+
+// sharedSubnodes: the membership proofs of the two boundary keys, compared below their common prefix, contain a node
+// with the same hash.
+func sharedSubnodes(b *built, pk []string) bool {
+	if len(pk) != 2 || b.root.IsZero() {
+		return false
+	}
+	path := func(k string) []string {
+		key := hexF(k)
+		p := trie2.NewProofNodeSet()
+		if err := b.t2.Prove(&key, p); err != nil {
+			return nil
+		}
+		s, err := fromTrie2(p)
+		if err != nil {
+			return nil
+		}
+		out := make([]string, len(s))
+		for i, e := range s {
+			out[i] = e.Key
+		}
+		return out
+	}
+	l, r := path(pk[0]), path(pk[1])
+	i := 0
+	for i < len(l) && i < len(r) && l[i] == r[i] {
+		i++
+	}
+	seen := map[string]bool{}
+	for _, h := range l[i:] {
+		seen[h] = true
+	}
+	for _, h := range r[i:] {
+		if seen[h] {
+			return true
+		}
+	}
+	return false
 }
 
 func hasDupKeys(ks []string) bool {
@@ -532,9 +591,11 @@ func evalRanges(c *hx.Ctx, or *hx.Oracle, r *hx.RNG, tc trieCase) {
 			// everything but the LAST element omitted (the proof is the honest one of [first, last]): re-inserting the
 			// last key changes nothing on the right boundary path, so only a verifier that really recomputes every
 			// hash between the boundaries (no cached hash of a proof node survives) can refuse it
-			w := cp("only-last-element-kept")
-			w.Keys, w.Values = w.Keys[m-1:], w.Values[m-1:]
-			alts = append(alts, w)
+			if m >= 3 { // with two elements this is the first-element-omitted claim below
+				w := cp("only-last-element-kept")
+				w.Keys, w.Values = w.Keys[m-1:], w.Values[m-1:]
+				alts = append(alts, w)
+			}
 			x := cp("first-element-omitted") // first stays; the proof is the one of [first, last]
 			x.Keys, x.Values = x.Keys[1:], x.Values[1:]
 			alts = append(alts, x)
@@ -651,6 +712,9 @@ func corpus(c *hx.Ctx, or *hx.Oracle) {
 		// hasRightElement's comparison inside the edge decides (round-4 seed trie2-hasright-edge-padding)
 		{Trie: trieCase{Hash: "ped", Height: 251, Ops: []string{"10:a", "11:b"}}, First: "0", Tamper: "empty-claim-but-entries-follow", Shape: "corpus"},
 		{Trie: trieCase{Hash: "ped", Height: 251, Ops: []string{"1:a", "70:b", "71:c"}}, First: "40", Tamper: "empty-claim-but-entries-follow", Shape: "corpus"},
+		// identical sub-nodes on the two boundary paths, honest range refused with an error (not a panic) by trie2
+		{Trie: trieCase{Hash: "ped", Height: 251, Ops: []string{"6:6", "7:6", "1536bb68aba798674:6", "1536bb68aba798675:6"}, Shape: "repeated-subtrie"},
+			First: "6", Keys: []string{"6", "7", "1536bb68aba798674"}, Values: []string{"6", "6", "6"}, Shape: "corpus"},
 		// both: the single-element branch recomputes no hash (value altered in the claim and in the proof node, node still under its honest hash)
 		{Trie: t159, First: "5", Keys: []string{"5"}, Values: []string{"ff"}, Tamper: "single-element-value-forged-also-in-proof-node", Muts: []string{"child:3:c:ff"}, Shape: "corpus"},
 		// trie2: the empty-range branch recomputes no hash (root object replaced by a diverging edge)
